@@ -92,3 +92,83 @@ Definition loop_spec_ok (c : loop_case) : bool :=
     | s :: _ => list_eqb N.eqb changed [N.of_nat s] && N.eqb note (2 + N.of_nat s)
     end
   else match changed with [] => N.eqb note 0 | _ => false end.
+
+(* ---- several codemods over the shared stores ---------------------------------------------------- *)
+(** (stores: names held, does add_to_file ever yield a changeset, names refused although not held;
+     the dependencies of each codemod, in execution order;
+     observed per codemod: indices of the manifests that changed, notification code) *)
+Definition run_case := (list (list str * bool * list str) * list (list (str * str)) * list (list N * N))%type.
+
+Definition mkstores (l : list (list str * bool * list str)) : stores :=
+  fun i => match nth_error l i with
+           | Some (d, w, r) => {| st_declared := d; st_writable := w; st_refused := r |}
+           | None => {| st_declared := []; st_writable := false; st_refused := [] |}
+           end.
+
+Definition run_model_ok (c : run_case) : bool :=
+  let '(sts, cms, observed) := c in
+  let deps := map mkdeps cms in
+  let '(ls, _) := run_codemods requirement_name_cmp dep_loop_form (seq 0 (length sts)) deps (mkstores sts) in
+  list_eqb (pair_eqb (list_eqb N.eqb) N.eqb)
+           (map (fun dl => (map N.of_nat (recorded_of (snd dl)), note_code (notice_of (fst dl) (snd dl)))) (List.combine deps ls))
+           observed.
+
+(** spec (property text): a package declared anywhere in the project — at the start or added earlier in this run —
+    is not added again and is not reported as a failure; otherwise exactly the first manifest able to take it
+    changes and is named; when none can, nothing changes and the failed notice is given. *)
+Fixpoint first_able (i : N) (sts : list (list str * bool * list str)) (needed : list dep) : option N :=
+  match sts with
+  | [] => None
+  | (_, w, r) :: rest =>
+      if w && forallb (fun d => negb (mem_str (dname d) r)) needed then Some i else first_able (N.succ i) rest needed
+  end.
+Fixpoint run_spec_from (sts : list (list str * bool * list str)) (seen : list str)
+         (cms : list (list dep)) (observed : list (list N * N)) : bool :=
+  match cms, observed with
+  | [], [] => true
+  | deps :: cr, (changed, note) :: orest =>
+      let needed := needed_spec seen deps in
+      match deps, needed with
+      | [], _ => (match changed with [] => N.eqb note 0 | _ => false end) && run_spec_from sts seen cr orest
+      | _, [] => (match changed with [] => negb (N.eqb note 1) | _ => false end) && run_spec_from sts seen cr orest
+      | _, _ =>
+          match first_able 0 sts needed with
+          | Some i => list_eqb N.eqb changed [i] && N.eqb note (2 + i)
+                      && run_spec_from sts (map (fun d => canon (dname d)) needed ++ seen) cr orest
+          | None => (match changed with [] => N.eqb note 1 | _ => false end) && run_spec_from sts seen cr orest
+          end
+      end
+  | _, _ => false
+  end.
+Definition run_spec_ok (c : run_case) : bool :=
+  let '(sts, cms, observed) := c in
+  run_spec_from sts (map canon (flat_map (fun s => fst (fst s)) sts)) (map mkdeps cms) observed.
+
+(* ---- what the known-finding classes of setup.cfg PREDICT (classification is by observation, not by input shape) -- *)
+(** kf_setupcfg_dupline: the new lines sit after the FIRST line whose stripped text equals that of line k, an earlier line. *)
+Definition cfg_dupline_predicted (c : cfg_case) : bool :=
+  let '(text, _, _, declared_ref, deps, _, kref, (_, _, after)) := c in
+  let needed := needed_spec (map canon declared_ref) (mkdeps deps) in
+  match kref with
+  | Some k =>
+      let L := cfg_lines cfg_last_line_form text in
+      match index_of (strip (nth (N.to_nat k) L [])) (map strip L) with
+      | Some j => (j <? N.to_nat k)%nat && str_eqb after (writelines (cfg_after_spec L j needed))
+      | None => false
+      end
+  | None => false
+  end.
+
+(** kf_setupcfg_inline_list: the value is on the key line and the file now has `, dep1,[,dep2,]` appended to that line. *)
+Definition cfg_inline_predicted (c : cfg_case) : bool :=
+  let '(text, defined, declared, _, deps, _, _, (_, _, after)) := c in
+  match defined with
+  | Some df =>
+      (length (split_on LF df) =? 1)%nat &&
+      match cfg_build_new_lines (cfg_lines cfg_last_line_form text) df
+                                (add_deps requirement_name_cmp (mkdeps deps) declared) with
+      | BLines false nl => str_eqb after (writelines nl)
+      | _ => false
+      end
+  | None => false
+  end.
